@@ -37,6 +37,9 @@ type LockOp struct {
 	Kind  LockKind
 }
 
+// OwnerOfType renders a (pointer to a) named struct type the way LockClass.Owner does.
+func OwnerOfType(t types.Type) string { return ownerName(t) }
+
 // ownerName renders the named struct type owning a field.
 func ownerName(t types.Type) string {
 	for {
